@@ -102,7 +102,10 @@ func runSlice(r *engine.Run) {
 // ---- splice(start, deleteCount, items) ----
 
 func runSplice(r *engine.Run) {
-	items := [][]V{{}, {num(9)}, {num(9), num(8)}}
+	items := [][]V{{}, {num(9), num(8)}}
+	if r.Thorough() {
+		items = [][]V{{}, {num(9)}, {num(9), num(8)}}
+	}
 	eachCase(r, allRecvs(r), func(rc recv, emit func(string, []V, []V, bool)) {
 		if rc.bigLen {
 			return
